@@ -69,8 +69,9 @@
 (* coefficient below 10^4 in absolute value), whose sign at L = 10^5 is    *)
 (* the sign of the highest non-zero coefficient: exact, and every number   *)
 (* stays small.  An input counts as outside a face plane only when its     *)
-(* distance exceeds the tolerance granted to arithmetic in doubles at that  *)
-(* scale (WBeyond: about 10^-9 of the extent = 10^-4 of a lattice step).   *)
+(* normalised volume with the face exceeds 10^-9 (WBeyond: four points     *)
+(* that are coplanar to 10^-9 have no side an implementation in doubles    *)
+(* could be held to).                                                      *)
 (* Hull clauses as above except the separate extreme-point                 *)
 (* clause (for a closed convex surface through input points that contains  *)
 (* every input it is implied).                                             *)
@@ -213,19 +214,29 @@ PDeg(p) == IF p[4] # 0 THEN 3 ELSE IF p[3] # 0 THEN 2 ELSE IF p[2] # 0 THEN 1 EL
 WCross(u, v) == <<PSub(PMul(u[2], v[3]), PMul(u[3], v[2])), PSub(PMul(u[3], v[1]), PMul(u[1], v[3])),
                   PSub(PMul(u[1], v[2]), PMul(u[2], v[1]))>>
 \* d lies beyond the plane of (a, b, c) by more than the tolerance granted to an implementation that
-\* computes in doubles: about 10^-9 of the extent L, i.e. 10^-4 of a lattice step.  The distance is
-\* det / |normal| ~ (a_k / |n_j|) L^(k - j) with a_k, n_j the leading coefficients (degrees k, j):
-\*   k >= j       at least about 10^-2 of a lattice step: beyond
-\*   k = j - 1    (a_k / |n_j|) 10^-5: beyond iff a_k^2 > 100 |n_j|^2   (distance > 10^-4)
-\*   k <= j - 2   below 10^-6: within tolerance
+\* computes in doubles.  The tolerance is put on the scale-free orientation measure: the four points
+\* count as coplanar when  |det| <= 10^-9 |b-a| |c-a| |d-a|  (normalised volume; 10^-9 is the relative
+\* tolerance used for every snapped value in this framework).  A distance to the face plane would not do:
+\* the plane of a sliver face (two vertices in one cluster, the third 10^5 away and almost in line) is
+\* not determined in doubles.  With det ~ a_k L^k and |u|^2 ~ U L^(2m) (m = 1 for a vector between
+\* clusters, 0 inside one) and 10^-18 = 100 L^-4 the test reads  a_k^2 L^e <= 100 U V W,
+\* e = 2k - 2(m_u + m_v + m_w) + 4  (leading terms only: the tolerance is not sharp).
 Coef(p, k) == IF k < 0 THEN 0 ELSE p[k + 1]
+Between(u) == IF u[1][2] # 0 \/ u[2][2] # 0 \/ u[3][2] # 0 THEN 1 ELSE 0
+Lead2(u) == LET c == Between(u) + 1 IN u[1][c] * u[1][c] + u[2][c] * u[2][c] + u[3][c] * u[3][c]
 WBeyond(a, b, c, d) ==
     LET det == WVol(a, b, c, d)
-        n == WCross(WSub(b, a), WSub(c, a))
-        j == Max2(Max2(PDeg(n[1]), PDeg(n[2])), PDeg(n[3]))
         k == PDeg(det)
-        nj2 == Coef(n[1], j) * Coef(n[1], j) + Coef(n[2], j) * Coef(n[2], j) + Coef(n[3], j) * Coef(n[3], j)
-    IN PSign(det) > 0 /\ (k >= j \/ (k = j - 1 /\ Coef(det, k) * Coef(det, k) > 100 * nj2))
+        ak2 == Coef(det, k) * Coef(det, k)
+        u == WSub(b, a)  v == WSub(c, a)  w == WSub(d, a)
+        Q == Lead2(u) * Lead2(v) * Lead2(w)
+        e == 2 * k - 2 * (Between(u) + Between(v) + Between(w)) + 4
+        coplanar == CASE e <= -2 -> TRUE
+                      [] e = -1 -> Q >= 10 \/ ak2 <= 10000000 * Q
+                      [] e = 0 -> ak2 <= 100 * Q
+                      [] e = 1 -> ak2 <= 20 /\ 1000 * ak2 <= Q
+                      [] OTHER -> FALSE
+    IN PSign(det) > 0 /\ ~coplanar
 WSpans3(P) == \E a \in 1..Len(P) : \E b \in (a+1)..Len(P) : \E c \in (b+1)..Len(P) : \E d \in (c+1)..Len(P) :
                   WSide(P[a], P[b], P[c], P[d]) # 0
 WideHullClause(P, o) ==
